@@ -20,8 +20,15 @@ REPO = os.environ.get('VERIF_REPO', '/repo')
 COQ = os.path.join(VERIF, 'coq')
 OCAML = os.path.join(VERIF, 'ocaml')
 DRIVER = os.path.join(OCAML, 'driver')
-EVIDENCE = os.path.join(VERIF, 'evidence')
-REPLAYS = os.path.join(VERIF, 'replays')
+if os.path.realpath(REPO) == os.path.realpath('/repo'):
+    EVIDENCE = os.path.join(VERIF, 'evidence')
+    REPLAYS = os.path.join(VERIF, 'replays')
+else:
+    # a check pointed at another copy of the library (evaluation of seeded changes) must not overwrite the
+    # evidence of /repo itself
+    _alt = os.path.join(tempfile.gettempdir(), 'verif_alt_%s' % hashlib.sha1(os.path.realpath(REPO).encode()).hexdigest()[:10])
+    EVIDENCE = os.path.join(_alt, 'evidence')
+    REPLAYS = os.path.join(_alt, 'replays')
 
 os.environ.setdefault('PYTHONHASHSEED', '0')
 sys.dont_write_bytecode = True
